@@ -41,7 +41,8 @@ def rfc3339 (ns : Int) (off : Int) : Bytes :=
     if off = 0 then [0x5A]
     else
       let a := off.natAbs
-      (if off < 0 then 0x2D else 0x2B) :: (digits 2 (a / 3600) ++ [0x3A] ++ digits 2 (a % 3600 / 60))
+      -- Go: `zone := offset / 60` (truncating); the sign is that of the whole minutes, so -00:00:30 prints as +00:00
+      (if off ≤ -60 then 0x2D else 0x2B) :: (digits 2 (a / 3600) ++ [0x3A] ++ digits 2 (a % 3600 / 60))
   digits 4 y.toNat ++ [0x2D] ++ digits 2 m ++ [0x2D] ++ digits 2 d ++ [0x54] ++
     digits 2 (sod / 3600) ++ [0x3A] ++ digits 2 (sod % 3600 / 60) ++ [0x3A] ++ digits 2 (sod % 60) ++ frac ++ zone
 
